@@ -11,7 +11,7 @@ PROPS_FILE = "Props/C07.v"
 CORR_IMPORTS = "Base Index CorrC07"
 ENTRY = "cassis.cas.Cas.select_covered / select_covering / _get_feature_structures_in_range"
 RULE = (
-    "quick: every multiset of <=3 spans over offsets 0..3 (types rotated over a 4-type tree, decoys in a second view; random cases also index instances of built-in annotation types queried through built-in supertypes, and create subtypes after a first query, index instances of them and query again "
+    "quick: every multiset of <=3 spans over offsets 0..3 (types rotated over a 4-type tree, decoys in a second view; random cases also index instances of built-in annotation types queried through built-in supertypes, create subtypes after a first query, index instances of them and query again, remove some of several duplicates of a span before the query, and run on a type system obtained by merge_typesystems with re-parenting "
     "and in an unrelated type) x every query span x query type in {root, leaf}, plus seeded random instances (<=60 "
     "annotations, clustered and large offsets); thorough: multisets of <=4 spans and random instances up to 2000 "
     "annotations. A case is non-trivial when some indexed annotation of the queried subtree is zero-width at an edge "
@@ -47,7 +47,18 @@ def _subtree(sc, root, with_late=True):
     return out
 
 
-def _ts(cassis, fresh=False):
+def _ts(cassis, fresh=False, merged=False):
+    if merged:
+        # the same tree obtained by merge_typesystems: the first input declares t.Mid and t.Leaf directly below
+        # Annotation / t.Root, the second gives them their more specific supertypes (re-parenting in the merge)
+        from cassis import TypeSystem, merge_typesystems
+        a, b = TypeSystem(), TypeSystem()
+        for name, parent in [["t.Root", "uima.tcas.Annotation"], ["t.Mid", "uima.tcas.Annotation"], ["t.Leaf", "t.Root"],
+                             ["t.Other", "uima.tcas.Annotation"]]:
+            a.create_type(name, parent)
+        for name, parent in TREE:
+            b.create_type(name, parent)
+        return merge_typesystems(a, b)
     if fresh or "ts" not in _TS:
         from cassis import TypeSystem
         ts = TypeSystem()
@@ -120,13 +131,24 @@ def generate(rng, tier):
                 e = b if rng.random() < 0.3 else rng.randint(b, qe + 1)
                 late_adds.append({"l": 5000 + j, "t": rng.choice([t for t, _p in late_types]), "v": sc["q"]["v"], "b": b, "e": e})
             sc["late"] = {"types": late_types, "adds": late_adds}
+        elif kind == 3 and not big and sc["adds"]:
+            # duplicates of a span of one type, then some instances are removed again: what stays indexed must be returned
+            extra = []
+            for a in rng.sample(sc["adds"], min(len(sc["adds"]), 3)):
+                for _ in range(rng.randint(1, 2)):
+                    extra.append({"l": 7000 + len(extra), "t": a["t"], "v": a["v"], "b": a["b"], "e": a["e"]})
+            sc["adds"] = sc["adds"] + extra
+            cands = [a["l"] for a in sc["adds"]]
+            sc["removes"] = rng.sample(cands, min(len(cands), rng.randint(1, 4)))
+        if kind == 0 and r % 8 == 0 and not big:
+            sc["merged_ts"] = True
         yield sc
 
 
 def run_impl(cassis, sc):
     from cassis import Cas
     late = sc.get("late")
-    ts = _ts(cassis, fresh=bool(late))
+    ts = _ts(cassis, fresh=bool(late), merged=bool(sc.get("merged_ts")))
     cas = Cas(typesystem=ts)
     views = [cas, cas.create_view("v2")]
     lab = {}
@@ -151,6 +173,10 @@ def run_impl(cassis, sc):
         return list(view.select_covered(targ, probe)), list(view.select_covering(targ, probe))
 
     add_all(sc["adds"])
+    by_label = {l: fs for (l, fs) in lab.values()}
+    for l in sc.get("removes", []):
+        fs = by_label[l]
+        views[[a["v"] for a in sc["adds"] if a["l"] == l][0]].remove(fs)
     obs = {}
     if late:
         c0, g0 = query()
@@ -165,7 +191,8 @@ def run_impl(cassis, sc):
 
 
 def _all_adds(sc, with_late=True):
-    return sc["adds"] + (sc.get("late", {}).get("adds", []) if with_late else [])
+    gone = set(sc.get("removes", []))
+    return [a for a in sc["adds"] if a["l"] not in gone] + (sc.get("late", {}).get("adds", []) if with_late else [])
 
 
 def _expected(sc, rel, with_late=True):
@@ -259,6 +286,8 @@ def distribution(scenarios, observations):
             "second_view_queries": sum(1 for s in scenarios if s["q"]["v"] == 1),
             "by_query_type": {t: sum(1 for s in scenarios if s["q"]["t"] == t) for t in sorted({s["q"]["t"] for s in scenarios})},
             "with_late_subtypes": sum(1 for s in scenarios if "late" in s),
+            "with_removes": sum(1 for s in scenarios if s.get("removes")),
+            "type_system_obtained_by_merge": sum(1 for s in scenarios if s.get("merged_ts")),
             "builtin_typed_instances": sum(1 for s in scenarios if any(a["t"].startswith("uima.") for a in s["adds"])),
             "nonempty_covered": sum(1 for o in observations if o and o["covered"]),
             "nonempty_covering": sum(1 for o in observations if o and o["covering"])}
